@@ -177,7 +177,7 @@ PROPERTIES = {
         'assumptions': [A_IDEAL, A_LIB, DROPS, 'libraries are memory safe when their stated preconditions hold', 'documented option domain (see MainConfig.requires and domain_after)'],
         'uncovered': ['functions not under contract: PhaseSpace constructors, PhaseSpaceFactory (TXT/HDF5 start distributions), HDF5File, ProgramOptions, ParallelPlatesCSR, makeImpedance, RotationMap, Display',
                       'uninitialised reads (tables are written before use by construction order, checked only where a unit reads what it wrote)',
-                      'zero-energy bin outside the grid for the cubic Fokker-Planck stencil (precondition zerobin_inside)'],
+                      ],
         'explanation': 'automatic safety obligations of all units',
         'technique': TECH,
     },
